@@ -1453,6 +1453,10 @@ def gen_case(rng, k):
         rec.pop("cut", None)
         if rec.get("temp") == "lead0":
             rec["temp"] = "ok"
+    if rec.get("temp") == "lead0" and case["path"] in ("split", "export"):
+        # a part / selection may hold only the leading zeros: that is a
+        # (correct) violation for a ZMD setup
+        rec["zmd"] = False
     r = rng.random()
     case["ncorr"] = 0 if r < 0.25 else (1 if r < 0.7 else 2)
     r = rng.random()
